@@ -311,7 +311,7 @@ def rule_cell_equations(ctx):
     prev_p, prev_m = ("arg", 1), ("arg", 2)
     sm = ("call", "saturating_sub", (prev_m, GS))
     ss = ("call", "saturating_sub", (prev_p, GE))
-    paths = decision_paths(ps)
+    paths = _expand_selectors(facts, ps, decision_paths(ps))
     ctx.floor("decision paths of p_score", len(paths), 1)
     for conds, res in paths:
         orderings = {"lt", "eq", "gt"}   # of sm vs ss
@@ -381,7 +381,7 @@ def rule_cell_equations(ctx):
     consec = ("call", "max", tuple(sorted((("field", mcell, "consecutive_bonus"), BC), key=repr)))
     mscore = ("field", mcell, "score")
     skip_sum = add(pscore, bonus)
-    paths = decision_paths(nm)
+    paths = _expand_selectors(facts, nm, decision_paths(nm))
     ctx.floor("decision paths of next_m_cell", len(paths), 3)
     for conds, res in paths:
         rc = canon(res) if res else None
@@ -413,8 +413,20 @@ def rule_cell_equations(ctx):
                 st2 = st if a == bonus else {flip(x) for x in st}
                 gt_consec = True if st2 <= {"gt"} else (False if st2 <= {"lt", "eq"} else None)
             else:
-                # score_match vs score_skip
+                # score_match vs score_skip (a summand that both sides share -- `+ SCORE_MATCH` -- does not change
+                # the comparison: u16 additions that would overflow panic on both paths alike)
                 sa, sb = flat_add(a), flat_add(b)
+                ra, rb = list(sa), []
+                for x_ in sb:
+                    hit = [y_ for y_ in ra if repr(y_) == repr(x_)]
+                    if hit:
+                        ra.remove(hit[0])
+                    else:
+                        rb.append(x_)
+                if ra and rb and (len(ra) < len(sa)):
+                    a = add(*ra) if len(ra) > 1 else ra[0]
+                    b = add(*rb) if len(rb) > 1 else rb[0]
+                    sa, sb = ra, rb
                 is_skip = lambda x: same_sum(x, skip_sum)
                 if is_skip(b) and mscore in flat_add(a):
                     win = (a, st)
@@ -510,6 +522,54 @@ def rule_cell_equations(ctx):
             f2 = {k_: canon(under(v_, o)) if isinstance(v_, tuple) else v_ for k_, v_ in f.items()}
             k2 = "fuzzy_optimal::next_m_cell|%s" % ("match-wins" if f2.get("matched") == ("const", 1) else "skip-wins")
             judge(f2, (m_e, {o}), key=k2)
+
+
+def _expand_selectors(facts, fn, paths):
+    """`max_by_key(a, b, |x| x.k)` / `min_by_key` / `max_by` … select one of two candidates by comparing a key: replace
+    a path whose result is such a call by one path per outcome, with the comparison as an extra (virtual) condition.
+    std: max_by_key returns the SECOND argument when the keys are equal, min_by_key the FIRST."""
+    from cfg import decision_paths as _dp
+    out = []
+    for conds, res in paths:
+        r = strip_casts(res) if res is not None else None
+        if r is not None and r[0] == "call" and str(r[1]).rsplit("::", 1)[-1] in ("max_by_key", "min_by_key") and len(r[2]) == 3 and r[2][2][0] == "closure":
+            kf = get_fn(facts, fn.b["crate"], r[2][2][1])
+            kp = _dp(kf)
+            proj = None
+            if len(kp) == 1 and not kp[0][0] and kp[0][1] is not None:
+                k = strip_casts(kp[0][1])
+                chain = []
+                while k[0] in ("field", "deref", "ref", "downcast"):
+                    if k[0] == "field":
+                        chain.append(k[2])
+                    k = k[1]
+                if k[0] == "arg" and k[1] == 2 and len(chain) == 1:
+                    proj = chain[0]
+            if proj is None:
+                out.append((conds, res))
+                continue
+
+            def key_of(c):
+                c = strip_casts(c)
+                if c[0] == "tuple" and proj.isdigit() and int(proj) < len(c[1]):
+                    return c[1][int(proj)]
+                if c[0] == "agg" and isinstance(c[2], dict) and proj in c[2]:
+                    return c[2][proj]
+                return ("field", c, proj)
+            a, b_ = r[2][0], r[2][1]
+            ka, kb = key_of(a), key_of(b_)
+            is_max = str(r[1]).endswith("max_by_key")
+            # max: a iff key(a) > key(b);  min: b iff key(b) < key(a)  (ties: max -> b, min -> a)
+            cmp_ = ("bin", "Gt", ka, kb, "u16")
+            if is_max:
+                out.append((conds + [(cmp_, None, [0])], a))
+                out.append((conds + [(cmp_, 0, [0])], b_))
+            else:
+                out.append((conds + [(cmp_, None, [0])], b_))
+                out.append((conds + [(cmp_, 0, [0])], a))
+            continue
+        out.append((conds, res))
+    return out
 
 
 def rule_slab_choice(ctx):
